@@ -400,6 +400,23 @@ func preservesOf(c *Contract) (string, []string) {
 	return strings.TrimSpace(pfx), exc
 }
 
+// assignsNothing: the contract promises `assigns nothing` and declares no effects on the ghost logs.
+func assignsNothing(c *Contract) bool {
+	if c.Has("effects", 0) {
+		return false
+	}
+	cls := c.Get("assigns", 0, 0)
+	if len(cls) == 0 {
+		return false
+	}
+	for _, cl := range cls {
+		if strings.TrimSpace(cl.Text) != "nothing" {
+			return false
+		}
+	}
+	return true
+}
+
 func isSpecName(n string) bool { return strings.HasPrefix(n, "spec_") || strings.HasPrefix(n, "Spec_") }
 
 func exprString(e ast.Expr) string {
@@ -1294,6 +1311,7 @@ func (fv *FuncVerifier) callRepoFunc(st *State, env *Env, call *ast.CallExpr, fi
 			return fv.inlineRepoFunc(st, env, call, fi, sig, recv, hasRecv, args)
 		}
 		if !env.spec {
+			fv.orderLeak("the uncontracted function "+fi.Key+" is called", call.Pos())
 			fv.nondet = append(fv.nondet, "call of uncontracted "+fi.Key)
 			fv.note("call of uncontracted %s at %s: heap and map arguments havocked", fi.Key, fv.pos(call.Pos()))
 			fv.havocAll(st)
@@ -1301,6 +1319,11 @@ func (fv *FuncVerifier) callRepoFunc(st *State, env *Env, call *ast.CallExpr, fi
 			fv.havocMapArgs(st, env, call)
 		}
 		return fv.freshResults(st, sig)
+	}
+	if !env.spec && !isSpecName(fi.Obj.Name()) && !c.Has("pure", 0) && !c.Has("heapfree", 0) && !assignsNothing(c) {
+		// a /repo function that may have effects (run user code, register imports, touch files), called from inside a
+		// map-ordered loop: the order of those effects is map order
+		fv.orderLeak("the function "+fi.Key+" (which may have effects) is called", call.Pos())
 	}
 	fv.curState = st
 	args = fv.packVariadic(call, sig, args)
